@@ -267,7 +267,12 @@ Section Total.
     set (ro := search_node s v o SlLstat) in *. set (rn := search_node s v n SlLstat) in *.
     destruct (is_file_exists (sr_err ro)) eqn:Eo; cbn [negb]; [|fin].
     specialize (Hexo eq_refl). destruct (sr_child ro) as [oc|] eqn:Eoc; [|congruence].
-    rewrite Hop, Hnp. brk_lite.
+    rewrite Hop, Hnp. cbv zeta.
+    (* the tests before the permission checks first (an outermost-first case split would lose them) *)
+    destruct (get (f_heap s) oc) as [[ch m|d k i m|t m]|].
+    1: match goal with |- context [if ?b then Some (if ?b2 then ROk else _) else None] => destruct b; [destruct b2|] end.
+    4,5: match goal with |- context [if ?b then Some ROk else None] => destruct b end.
+    all: cbv iota; brk_lite.
   Qed.
 
   Lemma link_total o n : res_ok_if (sized o /\ sized n) (snd (link s v o n)).
